@@ -781,6 +781,22 @@ func (p *Prog) withNewHelpers(fn *ssa.Function) []*ssa.Function {
 				continue
 			}
 			for _, call := range callsIn(g) {
+				// a method that is new since the reference tree and is handed on as a function value
+				// (`s.eachRef((*Subscription).countDownSent)`) belongs to the code it was extracted from
+				for _, a := range call.Common().Args {
+					fv, ok := stripConv(a).(*ssa.Function)
+					if ok && fv.Synthetic != "" {
+						// a method expression is wrapped in a thunk: the method it calls
+						if m := boundMethod(fv); m != nil {
+							if mf := p.SSA.FuncValue(m); mf != nil {
+								fv = mf
+							}
+						}
+					}
+					if ok && p.isRepoFn(fv) && fv.Parent() == nil && len(fv.Blocks) > 0 && fv.Pkg == fn.Pkg && len(ref) > 0 && !ref[fnName(fv)] {
+						add(fv, d+1)
+					}
+				}
 				sf := call.Common().StaticCallee()
 				if sf == nil || !p.isRepoFn(sf) || sf.Parent() != nil || len(sf.Blocks) == 0 || sf.Pkg != fn.Pkg {
 					continue
